@@ -37,6 +37,20 @@ CHECKS = {
    design_ref="DESIGN.md 5.2",
    note="Trusted: sequentially consistent interleavings only (one thread runs at a time); reset_max/get_max only at quiescent points; conservative refusals are allowed by the one-directional 'only if'.",
    technique="deterministic simulation with fault injection: controlled-thread scheduler over atomic operations + failing parent allocator, reference ledger oracle, minimised replay"),
+ "C20": dict(
+   engine="simkit+h-cache",
+   category="fault_enumeration",
+   text="The real cli/src/config.rs runs over an in-memory POSIX-like file system, a virtual clock and a scripted HTTP transfer. Seeded histories of process runs (start-up, full load(), --fetch-currency) from every prior cache state, every server behaviour (complete, cut after k bytes by close or reset, stall, 3xx/4xx/5xx, refused, DNS), file-system errors at chosen calls and clock jumps; for most histories the kill point is swept over every file-system/transfer step of one run (and inside each write). After every run the cache bytes must be the previous bytes or the complete body of a 200 response that completed; failed refreshes must fall back to the stale cache and still start; completed refreshes must be visible to this and the next start; every run terminates within the transfer timeout.",
+   design_ref="DESIGN.md 5.3",
+   note="Trusted: the stand-ins for std::fs/curl/tempfile/dirs (behaviours listed in DESIGN.md 2.4/2.8); crash = process kill (completed operations persist, rename atomic), not power loss; single rink process.",
+   technique="deterministic simulation with fault injection: crash-point sweep over FS/transfer steps of seeded histories, scripted server faults, FS error injection, history oracle on the cache bytes"),
+ "C15": dict(
+   engine="simkit+h-history",
+   category="exploration",
+   text="Seeded histories of queries on one Context driven only through rink_core::eval under a virtual wall clock (advances and backward jumps) with the save_previous_result flag toggled; after every query the reply is compared with the reply of a separate context that is only touched by shared reference with the previous answer preset from a small model of `ans`; stored previous result, clock and settings are compared with the model, and a Debug dump of the whole context is compared with a pristine one. Modest claim: no concurrency or I/O exists here; the simulator contributes the clock seam, the history driver, the reference model and replay/minimisation.",
+   design_ref="DESIGN.md 5.4",
+   note="Trusted: the reference context (rebuilt from text every 64 histories and for every replay); replies in seconds may or may not update ans (both accepted).",
+   technique="deterministic simulation: seeded query histories under a simulated clock against a per-step reference model, minimised replay"),
 }
 
 def build():
@@ -54,9 +68,6 @@ def build():
             "technique": c["technique"],
         })
     na = [{"property_id": k, "reason": v} for k, v in sorted(NA.items()) if k not in CHECKS]
-    for pid in ("C15", "C20"):
-        if pid not in CHECKS:
-            na.append({"property_id": pid, "reason": "check under construction in this session (planned in DESIGN.md section 5); not yet claimed"})
     hooks = subprocess.run(["git", "-C", "/repo", "log", "--format=%H %s", "--grep=^verif hooks"], capture_output=True, text=True).stdout.split("\n")
     hook_commits = [l.split()[0] for l in hooks if l.strip()]
     m = {
@@ -71,7 +82,9 @@ def build():
         },
         "engines": [
             {"name": "simkit", "path": "simkit", "serves_properties": sorted(CHECKS), "kind_free_text": "hand-written deterministic simulator: virtual clock and timers, seeded scheduler over async tasks and baton-controlled OS threads, simulated pipes/process table/FS/HTTP transfer, Chooser-recorded decisions, generic minimiser, replay files, master/worker runner"},
-            {"name": "h-sandbox", "path": "harness/sandbox", "serves_properties": [p for p in ("C18", "C19") if p in CHECKS], "kind_free_text": "scenario generators, services and oracles for the sandbox crate"},
+            {"name": "h-sandbox", "path": "harness/sandbox", "serves_properties": ["C18", "C19"], "kind_free_text": "scenario generators, test service and oracles for the sandbox crate (compiled through a shadow manifest)"},
+            {"name": "h-cache", "path": "harness/cache", "serves_properties": ["C20"], "kind_free_text": "cli/src/config.rs compiled against stand-in crates named curl, tempfile, dirs (standins/), history generator, crash sweep and oracle"},
+            {"name": "h-history", "path": "harness/history", "serves_properties": ["C15"], "kind_free_text": "query-history generator and reference model over rink_core::eval"},
         ],
         "checks": checks,
         "not_applicable": na,
